@@ -295,7 +295,24 @@ def check_C11(tier, seed):
                          "located in the tree by pointer identity and compared with the stepwise location the specification computes")
 
 
-CHECKS = {"C01": check_C01, "C02": check_C02, "C03": check_C03, "C04": check_C04, "C05": check_C05, "C06": check_C06,
+def check_C13(tier, seed):
+    v = Verdict("C13", tier, seed)
+    exe = build_driver("asan")
+    from . import inccheck
+    for c in cfgs(tier, ["inc_quick.cfg"], ["inc_thorough.cfg"]):
+        res = run_tlc("MC_Inc.tla", os.path.join("mc", c))
+        v.add_tlc(c, res, ["P_C13_Flatten", "P_C13_PositionRestored", "P_C13_FailureReported", "P_C13_DepthLimit"])
+        inccheck.replay(v, exe, res, aspects={"tree", "diag", "diagpos"}, seed=seed, tag="C13")
+    stress.run(v, exe, tier, tag="C13", only=("include-", "parsefile-"))
+    v.cov["exhaustive"] = True
+    return v.finish(rule="every main text up to the length bound over an alphabet with the include function, ten file names of a fixed "
+                         "file system (plain, including another file, re-opening a section, failing, self-including, chains of 10 and 11 "
+                         "levels, a directory, a missing name) and ordinary items, with line breaks; tree, return code, first diagnostic's "
+                         "file and line, descriptor / include-stack balance compared; plus histories of 12 failing includes followed by "
+                         "succeeding ones and includes resolved through the search path")
+
+
+CHECKS = {"C13": check_C13, "C01": check_C01, "C02": check_C02, "C03": check_C03, "C04": check_C04, "C05": check_C05, "C06": check_C06,
           "C07": check_C07, "C09": check_C09, "C10": check_C10, "C11": check_C11, "C12": check_C12, "C14": check_C14,
           "C15": check_C15, "C19": check_C19}
 
